@@ -1,5 +1,5 @@
 import Proofs.SpecBridge
-import Proofs.Tie.Encode
+import Proofs.EncodeFields
 /-!
 # Proofs.EBridge — from the model's encoder to the specification's generator (E)
 
